@@ -66,8 +66,10 @@ def guard_only(arg):
             "flags": (arg.flags.writeable, arg.flags.c_contiguous, arg.flags.aligned, arg.flags.owndata)}
 
 
-def changed(g):
-    """None if untouched, else a short description."""
+def changed(g, run=None):
+    """None if untouched, else a short description.  Counts the guarded call on `run`."""
+    if run is not None:
+        run.fault("guarded_" + g["kind"])
     arg = g["arg"]
     msgs = []
     if repr(arg.dtype.descr) != g["descr"] or arg.dtype.str != g["dtstr"]:
